@@ -19,7 +19,9 @@ from ..core import MachineryError
 from ..vloop import ms, virtual_world
 
 OPTS = [("init", 60000, "init"), ("expire", 60000, "expire 1"), ("expire", 120000, "expire 2"), ("every", 60000, "every 1"),
-        ("every", 120000, "every 2"), ("expire", 3600000, True)]
+        ("every", 120000, "every 2"), ("expire", 3600000, True),
+        # a number is an expiry in minutes (at least one; 0 is falsy: no tracking at all); True is the default (expire 60)
+        ("expire", 60000, 1), ("expire", 60000, 1.0), ("expire", 120000, 2), ("expire", 60000, 0.5), ("expire", 90000, 1.5)]
 
 
 def run_hist(seed, long=False):
